@@ -809,7 +809,9 @@ fn exercise(data: &[u8]) {
     match TcpOptions::try_from_slice(data) {
         Ok(o) => {
             dbg("tcpopts.len", &o.len());
-            ex_tcp_opts("tcpopts.it", o.elements_iter());
+            // (owned copy of the bytes: its iterator's slices do not point into the input)
+            let items: Vec<String> = o.elements_iter().take(64).map(|e| format!("{:?}", e)).collect();
+            dbg("tcpopts.items", &items);
         }
         Err(e) => dbg("tcpopts.err", &e),
     }
